@@ -51,7 +51,8 @@ def run(res, f, tier):
                 m = re.search(r"Ok\(helpers::(\w+)!\(\$0\)\)", t)
                 if m:
                     helper_of[p["rhs"][0]] = "parse::helpers::" + m.group(1)
-        if len(p["rhs"]) == 1 and p["rhs"][0] in lexical.CONSTANTS and p["term"] and p["lhs"] != "Func":
+        if len(p["rhs"]) == 1 and p["rhs"][0] in lexical.CONSTANTS and p["term"] and p["lhs"] != "Func" and \
+                f.ty_s(f.bodies["parse::reval::__action%d" % p["action"]]["locals"][0]["ty"]) in ("value::Value", "()"):
             want = lexical.CONSTANTS[p["rhs"][0]]
             got = [t for _, t in p["term"]]
             if got == ["<()>"]:
